@@ -355,7 +355,20 @@ class PyEval(MiniEval):
                 if isinstance(st.exc, ast.Call):
                     cls = dotted(st.exc.func).split(".")[-1]
                 return ("raise", cls or ast.unparse(st)[:80])
-            r = super().run([st], env)
+            if getattr(self, "lenient", False) and isinstance(st, (ast.Assign, ast.AnnAssign, ast.AugAssign, ast.Expr)):
+                # lenient mode (opt-in): a straight-line statement that cannot be evaluated (it builds a diagnostic, say)
+                # binds its targets to opaque values instead of abandoning the whole run; tests on such values still abort
+                try:
+                    r = super().run([st], env)
+                except Unsupported:
+                    tg = st.targets if isinstance(st, ast.Assign) else ([st.target] if isinstance(st, (ast.AnnAssign, ast.AugAssign)) else [])
+                    for t in tg:
+                        for nm in ast.walk(t):
+                            if isinstance(nm, ast.Name):
+                                env[nm.id] = Opaque(f"<{nm.id}>")
+                    r = ("fall", None)
+            else:
+                r = super().run([st], env)
             if r[0] != "fall":
                 return r
         return ("fall", None)
@@ -478,6 +491,11 @@ class PyEval(MiniEval):
             if isinstance(v, Opaque):
                 raise Unsupported("isinstance of opaque value")
             ts = t if isinstance(t, tuple) else (t,)
+            if any(callable(x) and not isinstance(x, type) for x in ts):
+                # a class name that the caller also hooks as a constructor: identify it by its source name
+                srcs = node.args[1].elts if isinstance(node.args[1], ast.Tuple) else ([node.args[1]] if not isinstance(node.args[1], ast.BinOp) else None)
+                if srcs is not None and len(srcs) == len(ts):
+                    ts = tuple(Opaque(ast.unparse(s)) if callable(x) and not isinstance(x, type) else x for s, x in zip(srcs, ts))
             if all(isinstance(x, type) for x in ts):
                 return (not isinstance(v, Tok)) and isinstance(v, ts)
             if isinstance(v, Tok) and all(isinstance(x, Opaque) for x in ts):
@@ -511,6 +529,33 @@ class PyEval(MiniEval):
             raise Unsupported("zip of non-sequences")
         if fn == "enumerate" and len(node.args) == 1 and isinstance(A()[0], (list, tuple)):
             return [(i, x) for i, x in enumerate(A()[0])]
+        if fn in ("reduce", "functools.reduce") and 2 <= len(node.args) <= 3 and isinstance(A()[1], (list, tuple)):
+            op = A()[0]
+            opname = op.what if isinstance(op, Opaque) else None
+            if opname in ("operator.ior", "operator.or_", "ior", "or_"):
+                seq = list(A()[1])
+                if len(A()) == 3:
+                    seq.insert(0, A()[2])
+                if not seq:
+                    raise Raised("reduce() of empty iterable with no initial value", "TypeError")
+                acc = seq[0]
+                for x in seq[1:]:
+                    if opname.endswith("ior") and isinstance(acc, dict) and isinstance(x, dict):
+                        acc.update(x)  # in place, as `acc |= x` on the very object that was passed in
+                    elif opname.endswith("ior") and isinstance(acc, set) and isinstance(x, (set, frozenset)):
+                        acc.update(x)
+                    else:
+                        acc = self.binop(ast.BitOr(), acc, x)
+                return acc
+            raise Unsupported(f"reduce with {op!r}")
+        if fn == "sorted" and len(node.args) == 1 and isinstance(A()[0], (list, tuple, set, frozenset, dict)):
+            xs = list(A()[0])
+            kws = {k.arg: self.ev(k.value, env) for k in node.keywords if k.arg}
+            keyf = kws.get("key")
+            if all(isinstance(x, (str, int, float)) and not isinstance(x, bool) for x in xs) and len({type(x) is str for x in xs}) <= 1 \
+                    and (keyf is None or keyf in (str, int, float)) and set(kws) <= {"key", "reverse"} and isinstance(kws.get("reverse", False), bool):
+                return sorted(xs, key=keyf, reverse=kws.get("reverse", False))
+            raise Unsupported(f"sorted of {xs!r}")
         if fn == "reversed" and len(node.args) == 1 and isinstance(A()[0], (list, tuple)):
             return list(reversed(A()[0]))
         if fn in ("cast",) and len(node.args) == 2:
